@@ -27,24 +27,35 @@ ASSUMPTIONS = ["dates within years 0000..9999 (time.Parse layout 2006-01-02)",
                "regular expressions on the command line restricted to ^literal$ forms; --to always passed",
                "at most 12 transactions per day in generated journals (sort.Slice is modelled as a stable insertion sort, "
                "which is what pdqsort does below 13 elements)"]
-TECHNIQUE = ("Coq: vm_compute refutation of the pinned printer; closed round-trip lemmas for the leaves and per directive at the "
-             "model level; journal-level statements as *_partial.  Correspondence: the binary on its own print output, the model's "
-             "parser+ToModel re-reading both the model's and the binary's output (normal_form_b, same_report_b)")
-LEVEL_TEXT = ("Properties/C09.v, 14 theorems closed under the global context.  Refuted for the pinned printer: "
-              "C09_multi_assertion_refuted (an accepted journal whose printed form the model's parser rejects; vm_compute).  For "
-              "the repaired printer: layer 0 C09_multi_assertion_fixed, C09_example (whole loop inside Coq); layer 1 "
-              "C09_txn_denoted / C09_directive_denoted (every model directive, accrual expansions included, is reproduced exactly "
-              "from what the printer writes for it), C09_date/account/decimal_roundtrip (leaves through ToModel); model-level "
-              "journal statements C09_accepted_partial, C09_idem_partial, C09_same_reports_partial, C09_denote_idem (the denoted "
-              "directive list loads to the same builder: same verdict, same print bytes, same report bytes); C09_printers_agree "
-              "(the repair changes the output only where a multi-balance assertion is followed by another assertion).  The full "
-              "statements C09_accepted / C09_idem / C09_same_reports over the TEXT are in the header comment; not proved: parser "
-              "context lemmas on printer output, decimal text normal form, invariance under print's regrouping and sorting.")
+TECHNIQUE = ("Coq: vm_compute refutation of the pinned printer; text-level proof for the repaired printer: journal.Print's text "
+             "is a woven text of the format printer with newline gaps, read by C08's parser context lemmas "
+             "(RoundTripFile.parse_woven), ToModel as a function of the meaning, Decimal.String as a normal form and a function of "
+             "the value, C05's permutation invariance for the regrouping, a total-preorder proof for transaction.Compare (sort "
+             "idempotence), a generic simulation of Processor.Process under value-equal quantities through the checker and the "
+             "whole balance pipeline (integer arithmetic of big.Int.Quo for Truncate and DivRound).  Correspondence: the binary on "
+             "its own print output, the model's parser+ToModel re-reading both the model's and the binary's output "
+             "(normal_form_b, same_report_b)")
+LEVEL_TEXT = ("Properties/C09.v, 32 theorems and examples closed under the global context.  Refuted for the pinned printer: "
+              "C09_multi_assertion_refuted (an accepted journal whose printed form the model's parser rejects; vm_compute).  For the "
+              "repaired printer, at full strength over the TEXT knut print writes, for every journal whose leaves are what the "
+              "parser guarantees (input_lex: years 0000..9999, names = runs of Unicode letters/digits, quote-free UTF-8 "
+              "descriptions, non-empty booking/balance lists; satisfiable: C09_input_lex_example) and both checkers: C09_accepted "
+              "(the text is read back by parser+ToModel and knut check accepts it), C09_idem / C09_normal_form (knut print writes it "
+              "again byte for byte), C09_same_reports (balance CSV and text bytes of the re-read journal are the journal's for every "
+              "configuration incl. valuation, --close, --thousands -- or both commands fail; C05's price exclusion is not needed), "
+              "C09_roundtrip (all three for one re-read journal).  Components: C09_reparse_printed (parser + ToModel on "
+              "journal.Print's text = the printed sequence with re-read quantities), C09_decimal_normal_form, C09_reread, "
+              "C09_decimal_string_of_value, C09_div_of_values, C09_check_sees_values, C09_balance_sees_values, "
+              "C09_printed_is_permutation, C09_builder_of_printed, C09_printed_same_reports, C09_sort_idem, C09_lex_ok_of_input; layer 0 "
+              "C09_multi_assertion_fixed, C09_example; layer 1 C09_txn_denoted / C09_directive_denoted, "
+              "C09_date/account/decimal_roundtrip; model level C09_denote_accepted, C09_denote_printed, C09_denote_same_reports, "
+              "C09_denote_idem; C09_printers_agree, C09_printed_accepted.")
 LEVEL_NOTE = ("Trusted: kernel, extraction, drivers, harness; the model-to-code tie is sampled.  The pinned printer violated the "
               "property (finding F2: a multi-balance assertion followed by another assertion of the day); the check reported it with "
               "a replay, /repo carries the repair 20a0d05 and the model follows the repaired printer (the pinned one survives in "
-              "C09_multi_assertion_refuted).  Journal-level statements named *_partial are proved for the model's directive lists, "
-              "the text level (parse of the printed bytes) per directive (layer 1) and on every generated case by the binary.")
+              "C09_multi_assertion_refuted).  Caveats of the proved statements: failing balance runs are only shown to fail on both "
+              "sides (the error may differ).  On "
+              "every generated case the binary's print, check and balance outputs are compared byte for byte.")
 
 
 def plan(tier, seed):
